@@ -16,7 +16,7 @@ replace_exported_func(fid, ..):
   * nothing is deleted and the original function is not modified; returns Ok(new)."""
 import re
 from registry import RuleResult
-from heval import Evaluator, Policy, EvalError, sym, show, cfield
+from heval import Evaluator, Policy, EvalError, sym, show, cfield, strip_after
 
 RI = 'module::functions::<impl module::Module>::replace_imported_func'
 RE = 'module::functions::<impl module::Module>::replace_exported_func'
@@ -69,6 +69,26 @@ def builder_sig_ok(w, ty_term_pred):
     return None
 
 
+def args_agree(w, res, which):
+    """the argument locals shown to the user's closure are the ones the built function is given as parameters"""
+    ind = [e for e in w.trace if e['kind'] == 'indirect_call' and e['callee'] == 'builder_fn']
+    lf = [e for e in w.trace if e['kind'] == 'call' and e['callee'].endswith('FunctionBuilder::local_func')]
+    key = which + '/closure-args-are-parameters'
+    if len(ind) != 1 or len(lf) != 1:
+        res.bad(key, 'replace_%s_func must call the user closure once and FunctionBuilder::local_func once (calls: %d, %d)'
+                % (which, len(ind), len(lf)))
+        return
+    a = ind[0]['args'][0] if ind[0]['args'] else None
+    shown = a[1][1] if isinstance(a, tuple) and a and a[0] in ('tup', 'tuple') and len(a[1]) == 2 else None
+    given = lf[0]['args'][1] if len(lf[0]['args']) > 1 else None
+    if shown is not None and given is not None and strip_after(shown) == strip_after(given):
+        res.ok(key, {'closure_args': show(shown)[:80], 'local_func_args': show(given)[:80]})
+    else:
+        res.bad(key, 'replace_%s_func hands the closure the locals %s but makes %s the parameters of the function it builds: '
+                     'the body the user writes against its arguments would read other locals'
+                % (which, show(shown)[:70] if shown is not None else '?', show(given)[:70] if given is not None else '?'))
+
+
 def imported(F, res, ev):
     ws = ev.run_fn(RI, [sym('self'), sym('fid'), sym('builder_fn')])
     good = ok_worlds(ws)
@@ -107,6 +127,7 @@ def imported(F, res, ev):
             res.ok('imported/arg-locals', {'locals': 'one per parameter, in order'})
         else:
             res.bad('imported/arg-locals', 'one local of the parameter\'s type must be created per parameter, in order')
+        args_agree(w, res, 'imported')
         others = [e['callee'] for e in calls if re.search(r'Module(Exports|Tables|Memories|Globals|Data|Elements)::', e['callee'])
                   and not e['callee'].endswith('::get')]
         if others:
@@ -156,4 +177,5 @@ def exported(F, res, ev):
             res.bad('exported/signature', 'replace_exported_func: ' + why)
         else:
             res.ok('exported/signature', {'builder': 'FunctionBuilder::new(types, params(ty), results(ty)) of the function\'s own type'})
+        args_agree(w, res, 'exported')
         break
